@@ -4,6 +4,7 @@ import AkVerif.Lemmas.XlsCoord
 import AkVerif.Lemmas.XlsWf
 import AkVerif.Lemmas.XlsConv
 import AkVerif.Lemmas.XlsReader
+import AkVerif.Lemmas.XlsKey
 /-!
 # C18 — objects read from a sheet match their source cells
 
@@ -229,6 +230,52 @@ theorem value_at_origin {V : Type} (cv : Conv V) (cfg : Cfg V) (s : Sheet)
     intro j c hjc
     exact Holder.append _ data tail i j c hi (curRows_holder _ data curs h9 i curs[i] j c (by simp [hic]) hjc)
 
+/-- A ranged *set* attribute holds exactly the titles whose cell, converted by the set's own element
+converter, is truthy — whatever the converter makes of a cell, a blank one included (an element converter
+for which a blank cell is a truthy value, e.g. `CellBool(true_values=[None, ''], …)`, makes the blank
+cells of the group members). For an object yielded as `i`-th result whose `k`-th attribute is a set `ks`:
+the rule is a ranged rule with some element converter `ct`, the reported origin is a `{title: coordinate}`
+map, every member of the set has an origin, and for every title `key` that `get_attr_origin(attr, key)`
+answers with a coordinate `c`: `c` is the coordinate of the cell holding the value of a column titled `key`
+for that row, that cell converts (to `v`), and `key ∈ ks` exactly if `v` is truthy. -/
+theorem set_member_at_origin {V : Type} (cv : Conv V) (cfg : Cfg V) (s : Sheet)
+    (objs : List (Option (Obj V))) (err : Option Err) (h : iterTable cv cfg s = ⟨objs, err⟩)
+    (i : Nat) (o : Obj V) (ho : objs[i]? = some (some o))
+    (k : Nat) (ks : List Key) (org : Origin) (ha : o.attrs[k]? = some (.set ks, org)) :
+    ∃ pre title rest kind ct opt, s = pre ++ title :: rest ∧ (∀ r ∈ pre, rowEmpty r = true) ∧
+      rowEmpty title = false ∧ cfg.rules[k]? = some (.range kind ct opt) ∧
+      (∀ key ∈ ks, ∃ c, attrOrigin org (some key) = .ok c) ∧
+      ∀ key c, attrOrigin org (some key) = .ok c →
+        ∃ (j : Nat) (cell : Cell) (v : V), (title.map fun c => titleOf c.val)[j]? = some key ∧
+          Holder (ladderPos cfg (title.map fun c => titleOf c.val)) rest i j cell ∧ cell.coord = c ∧
+          cv.conv ct cell.val = .ok v ∧ (key ∈ ks ↔ cv.truthy v = true) := by
+  obtain ⟨pre, title, rest, h1, h2, h3, _, _, hall⟩ := value_at_origin cv cfg s objs err h i o ho
+  obtain ⟨rule, hr, hok⟩ := hall k _ ha
+  unfold AttrOk at hok
+  cases org with
+  | na => obtain ⟨d, _, hv⟩ := hok; cases hv
+  | skipped => obtain ⟨t, ct, d, _, _, hv⟩ := hok; cases hv
+  | cell c => obtain ⟨t, ct, d, j, cell, v, _, _, _, _, _, _, hv⟩ := hok; cases hv
+  | range items =>
+    obtain ⟨kind, ct, opt, hrule, hkeys, _, hmem⟩ := hok
+    subst hrule
+    have horg : ∀ key c, attrOrigin (.range items) (some key) = .ok c → dictGet items key = some c := by
+      intro key c hc
+      simp only [attrOrigin] at hc
+      split at hc
+      · rename_i c' hc'; cases hc; exact hc'
+      · cases hc
+    refine ⟨pre, title, rest, kind, ct, opt, h1, h2, h3, hr, ?_, ?_⟩
+    · intro key hk
+      obtain ⟨c, hc⟩ := hmem key hk
+      exact ⟨c, by simp only [attrOrigin, hc]⟩
+    · intro key c hc
+      obtain ⟨j, cell, v, ht, _, _, hlook, hco, hconv, hkind⟩ := hkeys key c (horg key c hc)
+      refine ⟨j, cell, v, ht, hlook, hco, hconv, ?_⟩
+      cases kind with
+      | dict => obtain ⟨d, hd, _⟩ := hkind; cases hd
+      | set => obtain ⟨ks', hks, hiff⟩ := hkind; cases hks; exact hiff
+
 /-- Every object gets its own call of the declared default factories: the objects of a table are
 made by different runs of `__init__` (`serial`), later objects by later runs — so a default that is
 `d serial` (`value_at_origin`) is a fresh result of the factory for each object (a counter
@@ -382,6 +429,20 @@ theorem blank_key_row {V : Type} (cv : Conv V) (numId : Nat) (rules : List (Rule
     (hb : ∀ s ∈ srcs.take numId, ∃ c, s = .cell c ∧ c.val = .blank) :
     construct cv numId rules slots k row = .ok none :=
   construct_keyless cv numId rules slots k row srcs hs hn hb
+
+/-- A key attribute that is not read from a column (known finding `key_attr_not_plain_column`; the model
+reproduces what the code does). If one of the first `_NUM_ID_ATTRS` attributes is external, an optional attribute
+whose column is missing, or ranged — its slot is not a column position — and the key cells before it are blank
+(always, when it is the first key attribute), `construct` raises `AttributeError` (`None.value` /
+`tuple.value` in `cell.value is None for cell in cells[:_NUM_ID_ATTRS]`) instead of making an object, and
+the iteration of the table ends at that row. `only_value_errors` excludes such rule sets (`RulesOk`). -/
+theorem key_not_column_fails {V : Type} (cv : Conv V) (numId : Nat) (rules : List (Rule V))
+    (slots : List Slot) (k : Nat) (row : Row) (srcs : List Src) (hs : mapE (srcOf row) slots = .ok srcs)
+    (i : Nat) (hi : i < numId)
+    (hblank : ∀ i', i' < i → ∃ c, srcs[i']? = some (.cell c) ∧ c.val = .blank)
+    (hslot : ∃ sl, slots[i]? = some sl ∧ ∀ j, sl ≠ .at j) :
+    construct cv numId rules slots k row = .error .attributeError :=
+  construct_key_not_column cv numId rules slots k row srcs hs i hi hblank hslot
 
 /-- The wording of the property for a worksheet whose coordinates are pairwise distinct: an
 attribute whose reported origin (`get_attr_origin(attr)`, resp. `get_attr_origin(attr, key)` of a
@@ -639,12 +700,40 @@ theorem std_conv_spec (v : Val) :
                                   | .int _ => .error .valueError) ∧
     stdConvFn 7 v = (match v with | .blank => .ok .none | .text s => .ok (.set (setOf (listItems s)))
                                   | .int _ => .error .valueError) := by
-  refine ⟨?_, ?_, rfl, ?_, ?_⟩ <;> cases v <;> simp [stdConvFn]
+  refine ⟨?_, ?_, ?_, ?_, ?_⟩
+  case refine_3 =>
+    have h0 : inTable stdBool.noneInts stdBool.noneStrs stdBool.noneNone v = false := by cases v <;> rfl
+    show cellBool stdBool v = _
+    unfold cellBool
+    rw [h0]
+    rfl
+  all_goals cases v <;> simp [stdConvFn]
+
+/-- `CellBool` with constructor options (`true_values`, `false_values`, `none_values`), for all tables: a
+value of the none table is `None` whatever the other tables say, else a value of the true table is `True`,
+else a value of the false table is `False`, and nothing else is accepted. `cell_bool` (converter 2) and the
+`CellBool` objects with options that the check reads sheets with (converters 9-12, `optBool`) are this
+function; with the options `true_values=[None, '']` (converter 9) a blank cell is `True`, a truthy value. -/
+theorem bool_conv_spec (t : BoolTables) (v : Val) :
+    (inTable t.noneInts t.noneStrs t.noneNone v = true → cellBool t v = .ok .none) ∧
+    (inTable t.noneInts t.noneStrs t.noneNone v = false →
+      (inTable t.trueInts t.trueStrs t.trueNone v = true → cellBool t v = .ok (.bool true)) ∧
+      (inTable t.trueInts t.trueStrs t.trueNone v = false →
+        (inTable t.falseInts t.falseStrs t.falseNone v = true → cellBool t v = .ok (.bool false)) ∧
+        (inTable t.falseInts t.falseStrs t.falseNone v = false → cellBool t v = .error .valueError))) ∧
+    stdConvFn 2 v = cellBool stdBool v ∧
+    (∀ ct t', optBool ct = some t' → stdConvFn ct v = cellBool t' v) ∧
+    (∃ t', optBool 9 = some t' ∧ cellBool t' .blank = .ok (.bool true)) ∧
+    stdTruthy (.bool true) = true := by
+  refine ⟨(cellBool_spec t v).1, (cellBool_spec t v).2, rfl, ?_, ⟨_, rfl, by decide⟩, rfl⟩
+  intro ct t' h
+  unfold optBool at h
+  split at h <;> first | (cases h; rfl) | cases h
 
 /-- … and what their results look like: a string value is stripped (stripping it again changes
 nothing: no leading or trailing white space), every item of a list / set value is non-empty,
 stripped and free of `,` and newline; a failed conversion is always a `ValueError`. -/
-theorem std_conv_shape (ct : Nat) (hct : ct ≤ 8) (v : Val) :
+theorem std_conv_shape (ct : Nat) (hct : ct ≤ 12) (v : Val) :
     (∀ s, stdConvFn ct v = .ok (.str s) → strip s = s) ∧
     (∀ l, stdConvFn ct v = .ok (.list l) ∨ stdConvFn ct v = .ok (.set l) →
       ∀ i ∈ l, i ≠ [] ∧ strip i = i ∧ ',' ∉ i ∧ '\n' ∉ i) ∧
@@ -664,11 +753,8 @@ theorem std_conv_shape (ct : Nat) (hct : ct ≤ 8) (v : Val) :
       split at h
       · cases h
       · cases v <;> simp at h
-    | 2, _ =>
-      simp only [] at h
-      split at h
-      · cases h
-      · split at h <;> cases h
+    | 2, _ | 9, _ | 10, _ | 11, _ | 12, _ =>
+      rcases cellBool_ok _ v _ h with h' | h' | h' <;> cases h'
     | 6, _ | 7, _ | 8, _ => cases v <;> simp at h
   · intro l h i hi
     unfold stdConvFn at h
@@ -680,9 +766,8 @@ theorem std_conv_shape (ct : Nat) (hct : ct ≤ 8) (v : Val) :
     | 1, _ | 4, _ =>
       simp only [] at h
       rcases h with h | h <;> (split at h; cases h; cases v <;> simp at h)
-    | 2, _ =>
-      simp only [] at h
-      rcases h with h | h <;> (split at h; cases h; split at h <;> cases h)
+    | 2, _ | 9, _ | 10, _ | 11, _ | 12, _ =>
+      rcases h with h | h <;> (rcases cellBool_ok _ v _ h with h' | h' | h' <;> cases h')
     | 6, _ | 8, _ =>
       rcases h with h | h
       · cases v with
@@ -703,7 +788,7 @@ theorem std_conv_shape (ct : Nat) (hct : ct ≤ 8) (v : Val) :
 /-- `only_value_errors` for the package's converters: a well-formed request that uses them can only
 be ended by `ValueError`. -/
 theorem std_only_value_errors (cfg : Cfg StdV) (n : Nat) (hn : 0 < n) (s : Sheet)
-    (hrect : ∀ r ∈ s, r.length = n) (hct : ∀ r ∈ cfg.rules, ∀ ct, r.ct? = some ct → ct ≤ 8)
+    (hrect : ∀ r ∈ s, r.length = n) (hct : ∀ r ∈ cfg.rules, ∀ ct, r.ct? = some ct → ct ≤ 12)
     (hnum : cfg.numId ≤ cfg.rules.length)
     (hkeys : ∀ k, k < cfg.numId → ∃ t ct d, cfg.rules[k]? = some (.col t ct d) ∧ t ∈ titlesOf s) :
     (iterTable stdConv cfg s).err = none ∨ (iterTable stdConv cfg s).err = some .valueError :=
@@ -781,6 +866,22 @@ example : (iterTable stdConv ⟨.blankAll, false, 0,
            (.plain (.int 7), .ok Gen.C18.skippedOrigin)]] := by
   decide +kernel
 
+private def optOutSheet : Sheet := mkSheet
+  [[.text "id".toList, .text "news".toList, .text "ads".toList, .text "name".toList],
+   [.int 1, .blank, .text "x".toList, .text "Ann".toList],
+   [.int 2, .text [], .blank, .text "Bob".toList]]
+
+/-- a ranged set attribute whose element converter makes a blank cell `True` (converter 9, "opt-out" columns):
+the blank cells of the group are members (hypotheses of `set_member_at_origin` with a blank source cell) -/
+example : (iterTable stdConv ⟨.blankAll, false, 1,
+      [.col "id".toList 1 none, .range .set 9 false, .col "name".toList 0 none], []⟩ optOutSheet).objs.map
+    (fun o => o.map fun o => o.attrs.map fun a => (a.1, attrOrigin a.2 (some "news".toList))) =
+    [some [(.plain (.int 1), .error .valueError), (.set ["news".toList], .ok "B2".toList),
+           (.plain (.str "Ann".toList), .error .valueError)],
+     some [(.plain (.int 2), .error .valueError), (.set ["news".toList, "ads".toList], .ok "B3".toList),
+           (.plain (.str "Bob".toList), .error .valueError)]] := by
+  decide +kernel
+
 /-- the first attribute need not come from a column: external, ranged and missing optional first
 attributes (the rule sets of the repaired anchor-cell defect) yield one object per data row -/
 example : (iterTable stdConv ⟨.blankAll, false, 0,
@@ -806,6 +907,16 @@ example : (iterTable stdConv ⟨.blankAll, true, 1, ladderRules, []⟩ ladderShe
       (fun o => o.map fun o => (o.serial, (o.attrs.map fun a => a.1)[3]?)) =
     [some (0, some (.plain (.int 42))), some (1, some (.plain (.int 43))),
      some (2, some (.plain (.int 44)))] := by
+  decide +kernel
+
+/-- an external first key attribute (`_NUM_ID_ATTRS = 2`, `src` external, then `id`, `name`): the first data row
+raises `AttributeError`, nothing is yielded (`key_not_column_fails` with `i = 0`) -/
+example : (iterTable stdConv ⟨.blankAll, false, 2,
+      [.ext (fun _ => .str "f.xlsx".toList), .col "id".toList 1 none, .col "name".toList 0 none], []⟩
+      rangeSheet).objs.length = 0 ∧
+    (iterTable stdConv ⟨.blankAll, false, 2,
+      [.ext (fun _ => .str "f.xlsx".toList), .col "id".toList 1 none, .col "name".toList 0 none], []⟩
+      rangeSheet).err = some .attributeError := by
   decide +kernel
 
 /-- a missing column without default is rejected with `ValueError` (hypothesis of `bind_error`) -/
